@@ -1027,6 +1027,7 @@ func runC16() error {
 			if w == 0 {
 				boundaryC16(func(c *c16Case) { emit(c); rep.Count("stream.boundary", 1) })
 				boundaryValues16(func(c *c16Case) { emit(c); rep.Count("stream.boundary_values", 1) })
+				selfEmbC16() // self-embedding types: outside the model, deep equality
 			}
 			genC16(r, perWorker, func(c *c16Case) { emit(c); rep.Count("stream.random", 1) })
 		}(w)
